@@ -380,6 +380,9 @@ pub fn run(ctx: &'static Ctx) -> (&'static str, Value, Vec<&'static str>) {
             let n = short_read_check(ctx, "decode_messages", &bytes, false, |r: &mut SplitReader| dm::decode_messages(r).ok(), |shape| json!({"op": "short_read", "symbols": syms, "boundaries": shape.0, "max_chunk": shape.1}));
             ssr.evaluations += n;
             ssr.count("short_read_shapes", n);
+            let n = crate::guard::two_actor_check(ctx, "decode_messages", &bytes, 32, |r: &mut SplitReader| dm::decode_messages(r).ok().map(|v| format!("{v:?}")), |mode, k| json!({"op": "two_actor", "symbols": syms, "mode": mode, "read_call": k}));
+            ssr.evaluations += n;
+            ssr.count("two_actor_schedules", n);
         }
     }
     let stats = s1.merge(s2).merge(s3).merge(s4).merge(sh).merge(ssr);
@@ -398,6 +401,9 @@ pub fn run(ctx: &'static Ctx) -> (&'static str, Value, Vec<&'static str>) {
 pub fn replay(ctx: &'static Ctx, case: &Value) {
     let syms: Vec<usize> = case["symbols"].as_array().map(|a| a.iter().map(|x| x.as_u64().unwrap_or(0) as usize).collect()).unwrap_or_default();
     match case["op"].as_str() {
+        Some("two_actor") => {
+            let _ = run(ctx);
+        }
         Some("stream") => {
             let parts: Vec<Vec<u8>> = syms.iter().enumerate().map(|(i, s)| message_bytes(*s, i)).collect();
             let labels: Vec<String> = syms.iter().map(|s| SYMBOLS[*s].to_string()).collect();
